@@ -233,6 +233,7 @@ class ImplWorld:
         self.callbacks = []
         self.cbfuns = {}                # one callable object per recording callable (bound twice = the same object)
         self.eager_slots = set()        # interpreters whose evaluator materialises the unsatisfied conditions
+        self.cur_clock = None           # clock value of the execute_once under way
         self.outer_first = False        # interpreters follow the outer-first variation
         self.tick_clock = False         # interpreters get a TickClock, which the ops do not set
         self.running_clock = False      # interpreters get a playing SimulatedClock over a scripted real time
@@ -282,6 +283,16 @@ class ImplWorld:
         def listener(event):
             if slot == self.top:
                 self.log.append(['meta', enc_event(event)])
+                # while a step is under way — from its first announcement on — the interpreter's time is the clock
+                # value sampled when the step was called
+                if self.cur_clock is not None and not self.tick_clock:
+                    try:
+                        seen = self.slots[slot].time
+                    except Exception:       # noqa
+                        seen = None
+                    if seen != self.cur_clock and not any(a[0] == 'time' for a in self.anomalies):
+                        self.anomalies.append(['time', 'while %r was announced interpreter.time was %r; the step was called at clock '
+                                               'time %r' % (event.name, seen, self.cur_clock)])
                 # every parameter of a meta-event is readable as an attribute, `None` values included
                 for k, v in event.data.items():
                     try:
@@ -346,6 +357,19 @@ class ImplWorld:
         if agg != exp:
             self.anomalies.append(['macro', 'MacroStep accessors disagree with its micro steps: %s vs %s'
                                    % (json.dumps(agg)[:300], json.dumps(exp)[:300])])
+        else:
+            # looking at a macro step does not change it: a second look gives the same, the micro steps too
+            try:
+                again = {'entered': list(ms.entered_states), 'exited': list(ms.exited_states),
+                         'sent': [enc_event(e) for e in ms.sent_events]}
+                steps2 = [self.micro_json(slot, m) for m in ms.steps]
+            except Exception as e:      # noqa
+                again, steps2 = {'error': repr(e)[:200]}, None
+            if again != {k: agg[k] for k in ('entered', 'exited', 'sent')} or steps2 != j['steps']:
+                self.anomalies.append(['macro', 'reading a MacroStep changed it: second reading %s, micro steps %s; first %s, %s'
+                                       % (json.dumps(again)[:200], json.dumps([[m['entered'], m['exited']] for m in steps2 or []])[:200],
+                                          json.dumps({k: agg[k] for k in ('entered', 'exited')})[:200],
+                                          json.dumps([[m['entered'], m['exited']] for m in j['steps']])[:200])])
         return j
 
     # ---- ops
@@ -448,10 +472,13 @@ class ImplWorld:
         self.top = i
         del self.log[:]
         del self.oldlog[:]
+        self.cur_clock = clock
         try:
             ms = it.execute_once()
         except Exception as e:      # noqa
             return {'outcome': 'error', 'err': err_json(self, i, e)}, list(self.log)
+        finally:
+            self.cur_clock = None
         if ms is None:
             return {'outcome': 'none'}, list(self.log)
         return {'outcome': 'step', 'step': self.macro_json(i, ms)}, list(self.log)
@@ -470,6 +497,7 @@ class ImplWorld:
         del self.log[:]
         steps = []
         err = None
+        self.cur_clock = clock
         # `Interpreter.execute` discards the steps already computed when a later one raises, so
         # the loop of `execute()` is replayed here through the public `execute_once`.
         n = 0
@@ -485,6 +513,7 @@ class ImplWorld:
             n += 1
             if 0 < max_steps == n:
                 break
+        self.cur_clock = None
         return {'steps': steps, 'err': err, 'eff': list(self.log)}
 
     def _add_listener(self, i, spec, listener):
@@ -508,6 +537,19 @@ class ImplWorld:
         def f(event):
             cb(event)
             event.data['hops'] = event.data.get('hops', 0) + 1
+        l = self.slots[i].bind(f)
+        return self._add_listener(i, ('bindcb', k), l)
+
+    def op_bindraise(self, i, k, nth):
+        """bind a recording callable that raises when it is given its `nth` event (once)"""
+        cb = self._cbfun(k)
+        count = [0]
+
+        def f(event):
+            cb(event)
+            count[0] += 1
+            if count[0] == nth:
+                raise RuntimeError('bound callable %d failed' % k)
         l = self.slots[i].bind(f)
         return self._add_listener(i, ('bindcb', k), l)
 
